@@ -89,9 +89,10 @@ def worker_main(pid, tier, widx, nworkers, seed, cases, conn):
                 return
             subcases = P.expand(case, W, tier) if hasattr(P, "expand") else (case,)
             for sub in subcases:
+                ctx = W.snapshot()
                 res = run_one(P, sub, W, stats)
                 if res.violation:
-                    fails.append((sub, res.violation))
+                    fails.append((sub, res.violation, ctx))
                     raise AssertionError(res.violation[0])
 
         try:
@@ -104,7 +105,7 @@ def worker_main(pid, tier, widx, nworkers, seed, cases, conn):
             if not fails:
                 raise
         if fails:
-            case, v = fails[-1]
+            case, v, ctx = fails[-1]
             sig0 = v[0]
             mini = getattr(P, "minimise", None)
             if mini is not None:
@@ -115,7 +116,7 @@ def worker_main(pid, tier, widx, nworkers, seed, cases, conn):
                         v = r2.violation
                 except Exception:
                     pass
-            out["failure"] = dict(case=S._enc(case), sig=v[0], text=v[1])
+            out["failure"] = dict(case=S._enc(case), sig=v[0], text=v[1], prelude=ctx)
         out["stats"] = stats.to_dict()
         W.close()
     except Exception:
@@ -211,6 +212,9 @@ def write_replay(pid, failure):
     d = os.path.join(os.environ.get("VERIF_FAIL_DIR", os.path.join(VERIF, "replays")), pid)
     os.makedirs(d, exist_ok=True)
     body = dict(property=pid, signature=failure["sig"], text=failure["text"][:2000], case=failure["case"])
+    if failure.get("prelude"):
+        # what the same world process had run just before: only needed if the library keeps state across cat_init calls
+        body["prelude"] = failure["prelude"]
     txt = json.dumps(body, sort_keys=True, indent=1)
     h = hashlib.sha256(json.dumps(failure["case"], sort_keys=True).encode()).hexdigest()[:12]
     path = os.path.join(d, "fail-%s.json" % h)
@@ -227,7 +231,18 @@ def replay_file(P, path, W):
         return rp(path)
     body = json.load(open(path))
     case = S._dec(body["case"])
-    return P.run(case, W)
+    res = P.run(case, W)
+    if not res.violation and body.get("prelude"):
+        # not reproducible from a fresh parser alone: replay it after what the failing process had run before (a failure that
+        # needs this means the library carries hidden state from one cat_init to the next)
+        W2 = Worlds(prelude=body["prelude"])
+        try:
+            res = P.run(case, W2)
+            if res.violation:
+                res = Result(violation=(res.violation[0], "[needs the preceding case in the same process: hidden state across cat_init] " + res.violation[1]))
+        finally:
+            W2.close()
+    return res
 
 
 def main():
